@@ -262,7 +262,7 @@ def check_cli_trans(fmt, size, spec, trans, src_variant=None):
     ntrees = size
     if src_variant:
         try:
-            ntrees = len(decode_part(fmt, open(whole, encoding='utf-8').read()))     # as many as the unsplit run wrote
+            ntrees = len(decode_part(fmt, codecs.read_out(whole)))     # as many as the unsplit run wrote
         except (codecs.DecodeError, IOError) as e:
             bad('part-not-a-document', 'unsplit output: %s' % e)
             return out
@@ -275,10 +275,10 @@ def check_cli_trans(fmt, size, spec, trans, src_variant=None):
         bad('cli-failed', 'split run: exit status %r %s' % (st1, cli.describe(exc1)))
         return out
     try:
-        want = decode_part(fmt, open(whole, encoding='utf-8').read())
+        want = decode_part(fmt, codecs.read_out(whole))
         got = []
         for i in range(len(exp_parts)):
-            got.extend(decode_part(fmt, open('%s.%d' % (dest, i), encoding='utf-8').read()))
+            got.extend(decode_part(fmt, codecs.read_out('%s.%d' % (dest, i))))
     except (codecs.DecodeError, IOError) as e:
         bad('part-not-a-document', str(e))
         return out
